@@ -90,7 +90,13 @@ theorem errorf_text_eq_sprintf (env : Env) (f : List Byte) (args : List Val) (hf
   | fuel => rfl
   | unsupported => rfl
 
-/-- … in particular for ASCII formats without the letter `w`. -/
+/-- … in particular for every format that does not contain the byte `w` (0x77): a verb `w` can only be spelled
+with that byte — a verb decoded from a multi-byte sequence is at least 0x80 (`EqW.decodeVerb_w`). -/
+theorem errorf_text_eq_sprintf_no_w_byte (env : Env) (f : List Byte) (args : List Val) (h : (0x77 : Byte) ∉ f) :
+    (helperForErrorf env f args).output = (sprintf env f args).output :=
+  errorf_text_eq_sprintf env f args (EqW.noW_of_not_mem f h)
+
+/-- … and for ASCII formats without the letter `w` (the parser's fast path). -/
 theorem errorf_text_eq_sprintf_ascii (env : Env) (f : List Byte) (args : List Val) (h : ∀ x ∈ f, x < 0x80 ∧ x ≠ 0x77) :
     (helperForErrorf env f args).output = (sprintf env f args).output :=
   errorf_text_eq_sprintf env f args (EqW.noW_of_ascii f h)
@@ -108,6 +114,8 @@ theorem printArg_ignores_capture (env : Env) (n : Nat) (p : PP) (a : Bool) (b : 
   | panic b pl => rfl
   | fuel => rfl
   | unsupported => rfl
+
+example : (0x77 : Byte) ∉ ([0xE2, 0x80, 0xB9, 0x25, 0x76, 0x20, 0x25, 0xE4, 0xB8, 0x96] : List Byte) := by decide
 
 /-! Premises satisfiable: "x=%v %5d\n" is an ASCII format without `w`. -/
 example : ∀ x ∈ ([0x78, 0x3D, 0x25, 0x76, 0x20, 0x25, 0x35, 0x64, 0x0A] : List Byte), x < 0x80 ∧ x ≠ 0x77 := by decide
